@@ -76,8 +76,10 @@ def check_family(ctx, aotools, N, rng):
     # each variant directly follows the base parameters (exercises even a one-entry cache with an incomplete key)
     variants = [base, (base[0] * float(rng.uniform(1.5, 4)), base[1]), base, (base[0], base[1] * float(rng.uniform(2, 6)))]
     ctx.count("same_grid_families")
-    shapes = [(N, N), (N, N)]
     fn = aotools.ft_phase_screen
+    g_probe = ScriptedGenerator([])
+    fn(base[0], N, delta, L0, base[1], seed=g_probe)
+    shapes = [tuple(l["size"]) for l in g_probe.log]        # the draw requests are observed, not presupposed
     for vi, (r0, l0) in enumerate(variants):
         wit = {"N": N, "delta": delta, "r0": r0, "L0": L0, "l0": l0, "member_of_family": vi}
         ctx.case("ft_phase_screen", key=(N, delta, r0, L0, l0, vi), nontrivial=True, sample=wit)
@@ -85,6 +87,8 @@ def check_family(ctx, aotools, N, rng):
         g0 = ScriptedGenerator([])
         z = fn(*args, seed=g0)
         check_draw_log(ctx, g0, shapes, wit, "ft_phase_screen")
+        ctx.check(sum(int(np.prod(sh)) for sh in shapes) == 2 * N * N, "ft_phase_screen:number_of_draws",
+                  "the screen consumes %d standard-normal numbers, a complex coefficient per frequency needs %d" % (sum(int(np.prod(sh)) for sh in shapes), 2 * N * N), wit)
         ctx.check(np.shape(z) == (N, N) and float(np.abs(z).max()) == 0.0, "ft_phase_screen:zero_draws", "non-zero screen for zero draws", wit)
         J = jacobian(ctx, fn, N, shapes, args)
         cov = J.T @ J
@@ -92,19 +96,21 @@ def check_family(ctx, aotools, N, rng):
         ctx.count("covariance_entries_compared", cov.size)
         ctx.close("ensemble_covariance", cov, want, 1e-11 * C[0, 0], "ft_phase_screen:ensemble_covariance" + (":family_member" if vi else ""), wit, scale=C[0, 0])
         # linearity in the draws and the r0^(-5/6) law, with dense random draws
-        b = [rng.standard_normal((N, N)) for _ in range(4)]
-        s1 = fn(*args, seed=ScriptedGenerator([b[0], b[1]]))
-        s2 = fn(*args, seed=ScriptedGenerator([b[2], b[3]]))
+        b1s = [rng.standard_normal(sh) for sh in shapes]
+        b2s = [rng.standard_normal(sh) for sh in shapes]
+        b = [None] * 4
+        s1 = fn(*args, seed=ScriptedGenerator(b1s))
+        s2 = fn(*args, seed=ScriptedGenerator(b2s))
         a1, a2 = float(rng.uniform(-2, 2)), float(rng.uniform(-2, 2))
-        s12 = fn(*args, seed=ScriptedGenerator([a1 * b[0] + a2 * b[2], a1 * b[1] + a2 * b[3]]))
+        s12 = fn(*args, seed=ScriptedGenerator([a1 * x + a2 * y for x, y in zip(b1s, b2s)]))
         sc = float(np.abs(s1).max() + np.abs(s2).max()) + 1e-300
         ctx.close("linearity_in_draws", s12, a1 * s1 + a2 * s2, 1e-12 * sc, "ft_phase_screen:linearity", wit, scale=sc)
-        ctx.close("screen_is_J_times_draws", s1.ravel(), np.concatenate([b[0].ravel(), b[1].ravel()]) @ J, 1e-11 * sc, "ft_phase_screen:affine_map", wit, scale=sc)
+        ctx.close("screen_is_J_times_draws", s1.ravel(), np.concatenate([x.ravel() for x in b1s]) @ J, 1e-11 * sc, "ft_phase_screen:affine_map", wit, scale=sc)
         c = float(rng.uniform(0.2, 5))
-        sr = fn(r0 * c, N, delta, L0, l0, seed=ScriptedGenerator([b[0], b[1]]))
+        sr = fn(r0 * c, N, delta, L0, l0, seed=ScriptedGenerator(b1s))
         ctx.close("r0_scaling", sr, s1 * c ** (-5.0 / 6.0), 1e-12 * sc * max(1, c ** (-5 / 6.)), "ft_phase_screen:r0_scaling", wit, scale=sc)
         # the FFT= hook must be equivalent to the default path
-        sf = fn(*args, FFT=np.fft.ifft2, seed=ScriptedGenerator([b[0], b[1]]))
+        sf = fn(*args, FFT=np.fft.ifft2, seed=ScriptedGenerator(b1s))
         ctx.close("FFT_hook", sf, s1, 1e-12 * sc, "ft_phase_screen:FFT_hook", wit, scale=sc)
         # seeded reproducibility through the documented integer seed (same stream -> same screen)
         si = fn(*args, seed=12345)
@@ -121,19 +127,20 @@ def check_family(ctx, aotools, N, rng):
                 ctx.close("int_seed_equals_generator_from_seed:" + nm, s_int, s_gen, 1e-12 * sc, nm + ":integer_seed_is_not_one_independent_stream", dict(wit, seed=sd), scale=sc)
         # ---- sub-harmonic variant (N <= 12 keeps the cost low) ----
         if N <= 12 or vi == 0:
-            sh_shapes = shapes + [(3, 3)] * 6
             fsh = aotools.ft_sh_phase_screen
             gs = ScriptedGenerator([])
             zs = fsh(*args, seed=gs)
-            check_draw_log(ctx, gs, sh_shapes, wit, "ft_sh_phase_screen")
-            ctx.check(float(np.abs(zs).max()) == 0.0, "ft_sh_phase_screen:zero_draws", "non-zero screen for zero draws", wit)
-            ctx.case("ft_sh_phase_screen", key=(N, delta, r0, L0, l0, "sh"), nontrivial=True)
-            Jlo = jacobian(ctx, fsh, N, sh_shapes, args)[2 * N * N:]     # the 54 sub-harmonic draws
-            Jhi_part = jacobian_subset(ctx, fsh, N, sh_shapes, args, rng)
-            ctx.close("sh_high_frequency_part", Jhi_part[1], J[Jhi_part[0]], 1e-12 * np.sqrt(C[0, 0]), "ft_sh_phase_screen:high_frequency_part", wit, scale=np.sqrt(C[0, 0]))
-            cov_lo = Jlo.T @ Jlo
-            d = np.diag(cov_lo)
-            D_lo = d[:, None] + d[None, :] - 2 * cov_lo          # structure-function increment between all pixel pairs
+            sh_shapes = [tuple(l["size"]) for l in gs.log]
+            ctx.count("draw_logs_checked")
+            ctx.check(all(l["loc"] == 0.0 and l["scale"] == 1.0 for l in gs.log), "ft_sh_phase_screen:draws_not_standard_normal", "a draw is not N(0,1)", wit)
+            ctx.check(np.shape(zs) == (N, N) and float(np.abs(zs).max()) == 0.0, "ft_sh_phase_screen:zero_draws", "non-zero screen for zero draws", wit)
+            ctx.case("ft_sh_phase_screen", key=(N, delta, r0, L0, l0, "sh", vi), nontrivial=True)
+            Jsh = jacobian(ctx, fsh, N, sh_shapes, args)
+            cov_sh = Jsh.T @ Jsh
+            dsh, dhi = np.diag(cov_sh), np.diag(cov)
+            D_sh = dsh[:, None] + dsh[None, :] - 2 * cov_sh
+            D_hi0 = dhi[:, None] + dhi[None, :] - 2 * cov
+            D_lo = D_sh - D_hi0          # what the sub-harmonics add to the structure function of every pixel pair
             ii = np.arange(N)
             dx = (ii[None, :, None, None] - ii[None, None, None, :]) * delta     # along axis 1 (x)
             dy = (ii[:, None, None, None] - ii[None, None, :, None]) * delta     # along axis 0 (y)
@@ -141,9 +148,10 @@ def check_family(ctx, aotools, N, rng):
                 so.subharmonic_covariance_increment(N, delta, r0, L0, l0, dx + 0 * dy, dy + 0 * dx)
             want_lo = 2 * inc.reshape(N * N, N * N)
             sc_lo = float(np.abs(want_lo).max()) + 1e-300
+            sc_hi = float(np.abs(D_hi0).max()) + 1e-300
             ctx.count("covariance_entries_compared", want_lo.size)
-            ctx.close("subharmonic_increment", D_lo, want_lo, 1e-10 * sc_lo, "ft_sh_phase_screen:increment_is_low_frequency_sum", wit, scale=sc_lo)
-            ctx.check(float(D_lo.min()) >= -1e-12 * sc_lo, "ft_sh_phase_screen:structure_function_decreases",
+            ctx.close("subharmonic_increment", D_lo, want_lo, 1e-10 * sc_lo + 1e-11 * sc_hi, "ft_sh_phase_screen:increment_is_low_frequency_sum", wit, scale=sc_lo)
+            ctx.check(float(D_lo.min()) >= -1e-11 * (sc_lo + sc_hi), "ft_sh_phase_screen:structure_function_decreases",
                       "sub-harmonics lower a structure-function value by %.3g" % float(-D_lo.min()), wit)
             # closer to the analytic curve at large separations, where sub-harmonics are meant to act
             if N * delta <= L0 / 2:
